@@ -48,11 +48,80 @@ def run(facts, res):
         check_listing(b, facts, res)
         check_listing_complete(b, facts, res)
         check_ranged_read(b, facts, res)
+    res.rule("S7", "leaf backends address an item by its key itself (file name / map key = the key, viewed, never re-encoded)")
+    n7 = 0
+    for b in leaf:
+        n7 += check_addressing(b, facts, res)
+    res.floor("S7", "addressing sites of leaf backends (memory map key, directory file name)", n7, 1 + ("filesystemadapter" in feat))
     for b in wrap:
         check_wrapper(b, facts, res)
         if b.name() != "DynAdapter":
             check_ranged_read(b, facts, res)
     check_consumers(facts, res)
+
+
+# ------------------------------------------------------------------------------ S7
+KEY_VIEW = {"deref", "as_ref", "as_str", "borrow", "to_string", "clone", "to_owned", "into", "from", "as_path", "new", "as_os_str", "to_path_buf"}
+
+
+def _view_root(t):
+    hops = 0
+    while hops < 40:
+        hops += 1
+        if t[0] in ("ref", "deref", "cast"):
+            t = t[1]
+        elif t[0] == "var":
+            t = t[3]
+        elif t[0] == "call" and callee_name(t) in KEY_VIEW and t[2]:
+            t = t[2][0]
+        else:
+            return t
+    return t
+
+
+def check_addressing(b, facts, res):
+    """the name an item is stored under is its key: the last path component (directory backend) or the map key (memory backend) is the
+    `key` argument, viewed or copied, not a transformed string. A re-encoding that is not one-to-one (characters replaced, case folded,
+    a prefix cut) lets a second key land on the first key's item: the write is dropped by the write-once guard and reads of the second
+    key return the first key's bytes, while the other backends keep the two apart."""
+    n = 0
+    bodies = []
+    for m in ("read_object", "write_object"):
+        for body in b.reach(m):
+            if body not in bodies:
+                bodies.append(body)
+    for body in bodies:
+        joins = [(bi, t) for bi, t in body.calls() if t.callee is not None and t.callee.name == "join" and "path::Path" in (t.callee.path + (t.callee.self_ty or "")) and len(t.args) >= 2]
+        inner = set()
+        for bi, t in joins:
+            for x in walk(arg_term(body, t, 0, 20)):
+                if x[0] == "call" and callee_name(x) == "join":
+                    inner.add(x[3])
+        for bi, t in joins:
+            if bi in inner:
+                continue
+            n += 1
+            r = _view_root(arg_term(body, t, 1, 24))
+            ok = r[0] == "param" and "str" in body.local_ty(r[1])
+            res.instance("S7", "%s: last path component in %s is the key argument itself (%s): %s" % (b.name(), body.path, r[2] if r[0] == "param" else r[0], ok), body.loc(t.line))
+            if not ok:
+                res.violation("S7", "%s|file-name-not-the-key" % b.name(),
+                              "%s builds the file name of an item from a transformed key (%s), not from the key itself: two keys can share one file" % (
+                                  body.path, callee_name(r) if r[0] == "call" else r[0]), body.loc(t.line))
+        for bi, t in body.calls():
+            c = t.callee
+            if c is None or not ("collections::BTreeMap" in c.path or "collections::HashMap" in c.path) or c.name not in ("insert", "get", "contains_key", "entry") or len(t.args) < 2:
+                continue
+            if not _store_receiver(body, t):
+                continue
+            n += 1
+            r = _view_root(arg_term(body, t, 1, 24))
+            ok = r[0] == "param" and "str" in body.local_ty(r[1])
+            res.instance("S7", "%s: map %s in %s keyed by the key argument itself: %s" % (b.name(), c.name, body.path, ok), body.loc(t.line))
+            if not ok:
+                res.violation("S7", "%s|map-key-not-the-key" % b.name(),
+                              "%s keys its store by a transformed key (%s)" % (body.path, callee_name(r) if r[0] == "call" else r[0]), body.loc(t.line))
+    return n
 
 
 # ------------------------------------------------------------------------------ S1
@@ -607,6 +676,41 @@ def check_consumers(facts, res):
             res.violation("S5", "%s|extension-mismatch" % name,
                           "%s lists packs with %r but the loader re-appends %r (PACK_EXTENSION=%r); listed names must arrive stripped" % (name, listed, appended, pe), b.loc())
     res.floor("S5", "pack listing consumers", n, 2)
+
+    # ------------------------------------------------------------------ S6 whole-buffer I/O
+    # io::Write::write / io::Read::read may transfer only part of the buffer and report how much; a backend that discards the
+    # count stores (or returns) a prefix of the value under the full value's key. Accepted: the *_all / *_exact / *_to_end
+    # forms, or a call whose count is used (feeds an arithmetic / comparison / slicing operation: a hand-written loop).
+    from ..flows import flow_of
+    res.rule("S6", "backends transfer whole buffers: no io::Write::write / io::Read::read whose returned count is discarded")
+    n6 = 0
+    for b in facts.repo_bodies():
+        for bi, t in b.calls():
+            c = t.callee
+            if c is None or not ("io::Write" in c.path or "io::Read" in c.path):
+                continue
+            n6 += 1
+            if c.name not in ("write", "read", "write_vectored", "read_vectored", "read_buf"):
+                continue
+            fl = flow_of(b)
+            derived = {n_[1] for n_ in fl.E if n_[0] == "l" and ("call", bi) in fl.sources([n_])}
+            used = False
+            for blk in b.blocks:
+                if blk.cleanup:
+                    continue
+                for st in blk.stmts:
+                    if st.kind == "assign" and st.rv.kind in ("binop", "checked_binop") and any(
+                            o.place is not None and o.place.local in derived for o in st.rv.operands()):
+                        used = True
+                    if st.kind == "assign" and any(p_["k"] == "index" and p_.get("l") in derived for p_ in (st.place.proj or [])):
+                        used = True
+            res.instance("S6", "%s calls %s: returned count used: %s" % (b.path, c.name, used), b.loc(t.line))
+            if not used:
+                res.violation("S6", "%s|partial-io:%s" % (b.path, c.name),
+                              "%s calls %s and discards the number of bytes transferred: %s may handle only part of the buffer, so a prefix of the value "
+                              "would be stored (or returned) under the key of the whole value" % (b.path, c.path, c.name), b.loc(t.line))
+    if any(b.path.startswith("<filesystemadapter::") for b in facts.repo_bodies()):
+        res.floor("S6", "io::Read / io::Write calls in the crate (directory backend compiled in)", n6, 4)
 
 
 FIXTURE_EXPECT = ['unguarded-map', 'no-suffix-strip', 'ranged-read-shape']
